@@ -8,6 +8,7 @@ mod img_streams;
 mod geom;
 mod sectorops;
 mod cross;
+mod packrun;
 mod codec;
 mod fsck;
 mod fsrun;
@@ -41,6 +42,7 @@ fn dispatch(toks: &[&str]) -> String {
         "sectorops" => sectorops::run(toks),
         "dpbinfo" => { let d = a2kit::bios::dpb::DiskParameterBlock::create(&geom::kind_of(toks[2])); format!("{} {} {} {} {} {}",d.bsh,d.off,d.dsm,d.drm,d.exm,d.spt) },
         "crc32" | "crc16" | "imdtrk" | "codec" => codec::dispatch(toks),
+        "deseq" | "dosbin" | "dostok" | "pack" | "txtb" => packrun::dispatch(toks),
         "cells" => cross::cells(toks),
         "cross" => cross::cross(toks),
         "fsh" => fsrun::run(toks),
